@@ -218,11 +218,19 @@ func (p *Primary) StreamWAL(
 
 	log.Info("Replica registered with address: %s", listenerAddress)
 
+	// StartSequence is the first sequence number the replica still needs (its
+	// "next expected"), so everything below it counts as acknowledged - not
+	// StartSequence itself, which may not even be written yet
+	lastAck := uint64(0)
+	if req.StartSequence > 0 {
+		lastAck = req.StartSequence - 1
+	}
+
 	session := &ReplicaSession{
 		ID:              sessionID,
 		StartSequence:   req.StartSequence,
 		Stream:          stream,
-		LastAckSequence: req.StartSequence,
+		LastAckSequence: lastAck,
 		SupportedCodecs: []proto.CompressionCodec{proto.CompressionCodec_NONE},
 		Connected:       true,
 		Active:          true,
@@ -454,8 +462,9 @@ func (p *Primary) broadcastToReplicas(response *proto.WALStreamResponse) {
 		}
 
 		// Check if this session has requested entries from a higher sequence
+		// (StartSequence itself is wanted: it is the replica's next expected entry)
 		if len(response.Entries) > 0 &&
-			response.Entries[0].SequenceNumber <= session.StartSequence {
+			response.Entries[0].SequenceNumber < session.StartSequence {
 			continue
 		}
 
